@@ -3,6 +3,7 @@ import copy
 import io
 import os
 import random
+import re
 import traceback
 
 from vlib import pdfwrite as W
@@ -38,6 +39,12 @@ REPL = [None, True, -1, 0, 2 ** 31, W.Real("0.5"), b"abc", W.N("Foo"), [], [1, 2
         "REFERRER"]
 REPL_NAMES = ["null", "true", "-1", "0", "2^31", "real", "string", "name", "[]", "[1 2 3]", "<<>>", "<</A 1>>", "self-ref",
               "missing-ref", "pagetree-ref", "referrer-ref (cycle of length >= 2)"]
+# (indices are part of pinned replay files: only ever append)
+TRAILER_REPL = list(REPL) + ["SELFPOS", 7]
+REPL += [10 ** 30, -10 ** 30, W.Real("1" + "0" * 60 + ".0"), b"", [W.R(9999)], [None]]
+REPL_NAMES += ["10^30", "-10^30", "real 1e60", "empty string", "[missing-ref]", "[null]"]
+TRAILER_REPL += REPL[16:]
+TRAILER_REPL_NAMES = REPL_NAMES[:16] + ["own startxref offset", "7"] + REPL_NAMES[16:]
 LZW_CODE_VALUES = [0, 255, 256, 257, 258, 259, 300, 511, 512, 4095]
 
 _SEEDS = {}
@@ -129,6 +136,29 @@ def _plain_lzw(v):
     return W.is_stream(v) and v[1].get(b"Filter") == W.N("LZWDecode") and b"DecodeParms" not in v[1]
 
 
+NUM_TOKEN = re.compile(rb"(?<![\w.#/<(\[-])[-+]?(?:\d+\.?\d*|\.\d+)(?![\w.>)])")
+OPERAND_REPL = [b"/N", b"(s)", b"[1]", b"<< >>", b"", b"9" * 400, b"1" + b"0" * 30 + b".5", b"-", b"null"]
+
+
+# trailer / cross-reference-stream dictionary entries; values REPL[r], then "SELFPOS" (the file's own startxref offset:
+# a /Prev chain leading back to itself) and 7 (an offset inside the header)
+TRAILER_KEYS = ["Prev", "XRefStm", "Size", "Root", "Info", "ID", "Encrypt", "W", "Index"]
+
+
+INLINE_INSERTS = [b"/F []", b"/F 3", b"/F null", b"/F /A85", b"/F [/AHx /A85]", b"/F << >>", b"/F (s)", b"/F [3]",
+                  b"/Filter []", b"/F /Fl /DP 7", b"/F /Fl /DP [null]", b"/F /LZW /DP << /Predictor /X >>", b"/F /CCF",
+                  b"/F /DCT", b"/F /RL", b"/F [/Fl /Fl /Fl]", b"/W /X", b"/BPC [8]", b"/CS 5", b"/CS [/I /G]", b"/D 7", b"/IM (x)"]
+
+
+def _is_content(v):
+    d = v[1]
+    if d.get(b"Filter") or b"Length1" in d or d.get(b"Subtype") == W.N("Image"):
+        return False
+    if d.get(b"Type") in (W.N("XRef"), W.N("ObjStm"), W.N("Metadata")) or b"begincmap" in v[2]:
+        return False
+    return any(op in v[2] for op in (b" Tj", b" re", b" Do", b" l", b"BT"))
+
+
 # replacements for the first `<lo> <hi> <target>` line of a bfrange section
 CMAP_RANGE_FAULTS = [
     (b"beginbfrange", b"<00000000> <ffffffff> <0041>", b"endbfrange"),
@@ -162,6 +192,20 @@ def fault_space(s):
                 out.append({"t": "payload", "obj": n, "how": "flip", "i": i})
             out.append({"t": "payload", "obj": n, "how": "garbage"})
             out.append({"t": "payload", "obj": n, "how": "empty"})
+            if _is_content(v):
+                # token-level corruption of a content stream: every numeric operand replaced by an operand of another
+                # type / an absurd number, or dropped
+                for k, m in enumerate(NUM_TOKEN.finditer(v[2])):
+                    for r in range(len(OPERAND_REPL)):
+                        out.append({"t": "operand", "obj": n, "k": k, "r": r})
+            if _is_content(v) and b" ID " in v[2] and b"BI" in v[2]:
+                # entries inserted into the dictionary of the first inline image
+                for k in range(len(INLINE_INSERTS)):
+                    out.append({"t": "inlinekey", "obj": n, "k": k})
+            if not v[1].get(b"Filter") and b"Length1" in v[1] and len(v[2]) <= 4000:
+                # an embedded font program: every byte overwritten with 0xFF (tables of offsets, counts and keys)
+                for pos in range(len(v[2])):
+                    out.append({"t": "byteset", "obj": n, "pos": pos, "val": 255})
             if not v[1].get(b"Filter") and b"endbfrange" in v[2]:
                 # a CMap program whose range is widened / whose range target overflows: work must stay bounded
                 for k in range(len(CMAP_RANGE_FAULTS)):
@@ -171,6 +215,9 @@ def fault_space(s):
                 for pos in range(24):
                     for val in LZW_CODE_VALUES:
                         out.append({"t": "lzwcode", "obj": n, "pos": pos, "val": val})
+    for key in TRAILER_KEYS:
+        for ri in range(len(TRAILER_REPL)):
+            out.append({"t": "trailer", "key": key, "r": ri})
     size = len(SD.write(s))
     for cut in range(0, size):
         out.append({"t": "truncate", "at": cut})
@@ -244,6 +291,41 @@ def apply_fault(s, f):
         if isinstance(d.get(b"Length"), int):
             d[b"Length"] = len(new)
         o2[f["obj"]] = ("S", d, new)
+        return SD.write(s, o2)
+    if f["t"] == "trailer":
+        new = TRAILER_REPL[f["r"]]
+        if new == "SELF":
+            new = W.R(1)
+        elif new == "REFERRER":
+            new = W.R(2)
+        return SD.write(s, None, {f["key"].encode(): copy.deepcopy(new)})
+    if f["t"] == "inlinekey":
+        st = objs[f["obj"]]
+        i = st[2].index(b" ID ")
+        new = st[2][:i] + b" " + INLINE_INSERTS[f["k"]] + st[2][i:]
+        o2 = dict(objs)
+        d = dict(st[1])
+        if isinstance(d.get(b"Length"), int):
+            d[b"Length"] = len(new)
+        o2[f["obj"]] = ("S", d, new)
+        return SD.write(s, o2)
+    if f["t"] == "operand":
+        st = objs[f["obj"]]
+        m = list(NUM_TOKEN.finditer(st[2]))[f["k"]]
+        new = st[2][:m.start()] + OPERAND_REPL[f["r"]] + st[2][m.end():]
+        o2 = dict(objs)
+        d = dict(st[1])
+        if isinstance(d.get(b"Length"), int):
+            d[b"Length"] = len(new)
+        o2[f["obj"]] = ("S", d, new)
+        return SD.write(s, o2)
+    if f["t"] == "byteset":
+        st = objs[f["obj"]]
+        if st[2][f["pos"]] == f["val"]:
+            return None
+        new = st[2][:f["pos"]] + bytes([f["val"]]) + st[2][f["pos"] + 1:]
+        o2 = dict(objs)
+        o2[f["obj"]] = ("S", dict(st[1]), new)
         return SD.write(s, o2)
     if f["t"] == "cmaprange":
         import re
@@ -387,8 +469,8 @@ def run_case(case):
         else:
             viol.append((bucket(exc), "%s raised %s: %s" % (name, type(exc).__name__, str(exc)[:200])))
     f = case["fault"]
-    if f["t"] in ("truncate", "flipbyte", "raw"):
-        nt = bool(fetched)
+    if f["t"] in ("truncate", "flipbyte", "raw", "trailer"):
+        nt = bool(fetched) or f["t"] == "trailer"
     else:
         nt = f["obj"] in fetched
     fp = None
@@ -411,6 +493,14 @@ def describe(case):
         return "seed %s object %d key %s removed" % (case["seed"], f["obj"], _fmt_path(f["path"]))
     if f["t"] == "payload":
         return "seed %s stream %d payload %s %s" % (case["seed"], f["obj"], f["how"], f.get("i", ""))
+    if f["t"] == "trailer":
+        return "seed %s trailer /%s <- %s" % (case["seed"], f["key"], TRAILER_REPL_NAMES[f["r"]])
+    if f["t"] == "inlinekey":
+        return "seed %s content stream %d inline image dictionary gets %s" % (case["seed"], f["obj"], INLINE_INSERTS[f["k"]].decode())
+    if f["t"] == "operand":
+        return "seed %s content stream %d numeric operand #%d <- %r" % (case["seed"], f["obj"], f["k"], OPERAND_REPL[f["r"]][:20])
+    if f["t"] == "byteset":
+        return "seed %s font program %d byte %d <- 0x%02x" % (case["seed"], f["obj"], f["pos"], f["val"])
     if f["t"] == "cmaprange":
         return "seed %s CMap stream %d range <- %s" % (case["seed"], f["obj"], CMAP_RANGE_FAULTS[f["k"]][1].decode())
     if f["t"] == "lzwcode":
@@ -522,7 +612,11 @@ def run_shard(spec, ctx):
         # faults are sampled with a seeded PRNG
         def always(c):
             f = c["fault"]
-            return f["t"] in ("payload", "lzwcode", "whole", "cmaprange") or (f["t"] == "replace" and REPL[f["r"]] in ("SELF", "REFERRER") or
+            if f["t"] == "operand" and c["seed"] == "simple":
+                return True
+            if f["t"] == "byteset" and c["seed"] == "cid":
+                return True  # the TrueType program: small, and every table of it is offsets / counts / keys
+            return f["t"] in ("payload", "lzwcode", "whole", "cmaprange", "trailer", "inlinekey") or (f["t"] == "replace" and REPL[f["r"]] in ("SELF", "REFERRER") or
                                                           (f["t"] == "replace" and f["r"] == 14))
         fixed = [i for i, c in enumerate(cases) if always(c)]
         rest = [i for i, c in enumerate(cases) if not always(c)]
